@@ -158,6 +158,11 @@ func unmarshalList(dec *msgpack.Decoder, ety cty.Type, path cty.Path) (cty.Value
 		vals = append(vals, val)
 	}
 
+	if !cty.CanListVal(vals) {
+		// only possible when the element type is (or contains) the dynamic
+		// pseudo-type and the members were decoded to different types
+		return cty.DynamicVal, path.NewErrorf("all list elements must have the same type")
+	}
 	return cty.ListVal(vals), nil
 }
 
@@ -189,6 +194,11 @@ func unmarshalSet(dec *msgpack.Decoder, ety cty.Type, path cty.Path) (cty.Value,
 		vals = append(vals, val)
 	}
 
+	if !cty.CanSetVal(vals) {
+		// only possible when the element type is (or contains) the dynamic
+		// pseudo-type and the members were decoded to different types
+		return cty.DynamicVal, path.NewErrorf("all set elements must have the same type")
+	}
 	return cty.SetVal(vals), nil
 }
 
@@ -225,6 +235,11 @@ func unmarshalMap(dec *msgpack.Decoder, ety cty.Type, path cty.Path) (cty.Value,
 		vals[key] = val
 	}
 
+	if !cty.CanMapVal(vals) {
+		// only possible when the element type is (or contains) the dynamic
+		// pseudo-type and the members were decoded to different types
+		return cty.DynamicVal, path.NewErrorf("all map elements must have the same type")
+	}
 	return cty.MapVal(vals), nil
 }
 
